@@ -260,6 +260,10 @@ def gen(rng, tier):
                         {"NodeName": "B", "Package": "p", "Imports": [{"Source": i} for i in imports[len(imports) // 2 + 1:]]}]
                 exp = [d for d in declared if not any(d["GroupId"] in i for i in imports)]
                 sh.append({"op": "unused", "files": files, "poms": poms, "gradles": gradles, "imports": imports, "clzs": clzs, "expected": exp})
+                if rng.random() < 0.25:
+                    # through the dependency sub-command itself (analysis/dep: `deps -p dir`) in a fresh process, the imports
+                    # written as Java sources into the tree; its printed table is read back
+                    sh[-1]["cli"] = True
         # any Gradle script must be survived: the declared dependencies cannot be extracted from a crash
         for i in range(per // 2):
             sh.append({"op": "gradlesoup", "text": soup(rng) + "\n"})
